@@ -72,9 +72,12 @@ def run(ctx):
                         "dimension arrays; the position reported for the step is an integer vector in [0, len-1] decoding to "
                         "exactly the passed values; sweep over all 22 optimizers, spaces 1-4 dims incl. size-1 dims and "
                         "sizes up to 1000, unsorted/descending/float arrays, random hyper-parameters, with/without "
-                        "constraints, repeated calls; distinct by (optimizer, seed, shape)")
+                        "constraints, repeated calls; plus, per optimizer, two longer runs with every hyper-parameter at or beyond the end of its "
+                        "usual range (simplex sigma > 1, swarm weights 3-4, pattern size 2, ...); distinct by (optimizer, seed, shape)")
     n_fast, n_slow = (108, 8) if ctx.quick else (720, 80)
-    for spec in sweep.sweep_specs(ctx, "c01", n_fast, n_slow, constraint=0.4, big_spaces=True):
+    specs = sweep.sweep_specs(ctx, "c01", n_fast, n_slow, constraint=0.4, big_spaces=True) \
+        + sweep.extreme_specs(ctx, "c01", rounds=(1 if ctx.quick else 4))
+    for spec in specs:
         out = instr.run_steps(spec)
         ctx.monitor_runs += 1
         ctx.monitor_nontrivial.add((spec["name"], spec["seed"], tuple(m[2] for m in spec["meta"])))
